@@ -50,7 +50,8 @@ def classify(rt, exc):
 class Session:
     def __init__(self, world, device=None, scratch=None):
         self.rt = rtmod.load()
-        rtmod.clear_function_caches()
+        if not rtmod.KEEP_STATE:
+            rtmod.reset_library_state()
         rtmod.set_debug_logging(bool(world.get("worklist", {}).get("debug_logging")))
         self.world = world
         self.device = device or world["device"]
